@@ -369,11 +369,25 @@ def parallelize(  # noqa: C901
     for orig_handler in orig_handlers:
         logger.addHandler(orig_handler)
 
+    def stop_processes():
+        """Terminates all child processes, which are still running.
+        """
+        for proc in processes:
+            if proc.is_alive():
+                proc.terminate()
+        for proc in processes:
+            proc.join()
+
     # Compute the first chunk in the main process.
     sarr = np.zeros((len(processes)+1,), dtype=[('n_finished_tasks', np.int64)])
-    result_list_0 = master_wrapper(
-        pbar, sarr, func, sub_args_list_list[0], squeue=squeue, rss=rss_list[0],
-        tl=tl_list[0])
+    try:
+        result_list_0 = master_wrapper(
+            pbar, sarr, func, sub_args_list_list[0], squeue=squeue,
+            rss=rss_list[0], tl=tl_list[0])
+    except BaseException:
+        # Don't leave the child processes behind.
+        stop_processes()
+        raise
 
     # Initialize logger.
     logger = logging.getLogger(__name__)
@@ -384,15 +398,6 @@ def parallelize(  # noqa: C901
     # The results arrive in the order the child processes finish. Hence, the
     # result record taken from the result queue can belong to any of the child
     # processes, whose result is still missing.
-    def stop_processes():
-        """Terminates all child processes, which are still running.
-        """
-        for proc in processes:
-            if proc.is_alive():
-                proc.terminate()
-        for proc in processes:
-            proc.join()
-
     pid_result_list_map = {0: result_list_0}
     while len(pid_result_list_map) <= len(processes):
         # Determine the child processes, which have terminated already, but
